@@ -19,14 +19,7 @@ stays on the object; whether `predict` looks at it is covered by the dynamic ref
 namespace Ska.C13
 open Ska.Effects
 
-/-- **`fit` is history free.**  If the summary of `fit` never looks at a non-parameter attribute of
-`self` before having written it in the same call (`HistoryFree`), then for *any* two objects that
-agree on the constructor parameters — in particular an object with an arbitrary history of earlier
-`fit` / `predict` / `query` calls and a fresh clone — and the same arguments (`F`): both calls read
-exactly the same values, take the same branches, compute the same values (hence return the same
-thing or raise the same exception) and leave the same value in every attribute `fit` may write
-(every such attribute is certainly written, so nothing of an earlier fit survives in them):
-`fit (anyHistory o) d = fit (fresh o) d`. -/
+/-- helper: `HistoryFree` contains the read-before-write check -/
 theorem historyFree_check {S : Summary} (hh : HistoryFree S = true) :
     (histCheck S.params S.body 0).1 = true := by
   unfold HistoryFree at hh
@@ -52,6 +45,14 @@ theorem historyFree_complete {S : Summary} (hh : HistoryFree S = true) (W : Nat)
     simp only [Nat.testBit_and, ha, Bool.true_and] at this
     exact this
 
+/-- **`fit` is history free.**  If the summary of `fit` never looks at a non-parameter attribute of
+`self` before having written it in the same call (`HistoryFree`), then for *any* two objects that
+agree on the constructor parameters — in particular an object with an arbitrary history of earlier
+`fit` / `predict` / `query` calls and a fresh clone — and the same arguments (`F`): both calls read
+exactly the same values, take the same branches, compute the same values (hence return the same
+thing or raise the same exception) and leave the same value in every attribute `fit` may write
+(every such attribute is certainly written, so nothing of an earlier fit survives in them):
+`fit (anyHistory o) d = fit (fresh o) d`. -/
 theorem fit_history_free (S : Summary) (hh : HistoryFree S = true) (F : HOra) (o o' : Nat → Val)
     (hparams : ∀ a, S.params.contains a = true → o a = o' a) :
     (hRun F S.body ⟨o, [], 0, false⟩).log = (hRun F S.body ⟨o', [], 0, false⟩).log ∧
